@@ -60,7 +60,8 @@ def run(ck, tier, seed):
         return
     if tier != "quick":
         from checks import flcommon as fl5
-        cfg5 = fl5.write_cfg("_c16d_%d.cfg" % os.getpid(), Kinds='{"good", "badglyph", "noname", "compressed"}', Srcs='{"ops"}', Texts="{0, 1}", MaxOps=5)
+        cfg5 = fl5.write_cfg("_c16d_%d.cfg" % os.getpid(), Kinds='{"good", "badglyph", "noname", "compressed"}', Srcs='{"ops"}', Texts="{0}", OptSet="{0, 3, 4, 7}", MaxOps=5,
+                             ClientOps='{"label", "featval", "destroy_fval", "make_font", "destroy_font", "make_seg", "destroy_seg", "shape", "justify"}')
         ok5, _ = fl5.run_histories(ck, tmp, "five-operation histories (core kinds)", cfg5, "FaceLifeTrace.cfg", exe)
         if not ok5:
             return
